@@ -15,3 +15,7 @@ G = ['"no output line ends in a blank" additionally needs: every add_char(LF) is
      'newlines_eat_start_end (end-of-file policy): see C20',
      'comment writers and alignment passes choose columns; callers never end a line with TAB']
 MACRO_HEADERS = ['output_macros.h']
+
+sys.path.insert(0, os.path.join(os.path.dirname(os.path.abspath(__file__)), '..', '..', 'tools'))
+import replay_lib  # noqa: E402
+REPLAY = replay_lib.make_replay(replay_lib.scenario_whitespace_hygiene, replay_lib.scenario_blank_lines)
